@@ -215,9 +215,14 @@ def _replay_numeric(fn, x0):
     import jax.numpy as jnp
 
     try:
-        x = jax.tree_util.tree_map(lambda v: v + 0.7, x0)
-        y = fn(x)
-        return not all(np.allclose(np.asarray(a), np.asarray(b), atol=1e-5) for a, b in zip(jax.tree_util.tree_leaves(y), jax.tree_util.tree_leaves(x)))
+        # exp/log are uninterpreted in the solver's model, so its witness need not be a failing *number*: probe several magnitudes of the parameter
+        # (all well inside float32's normal range for exp) and report the violation if any of them fails on the real function
+        for shift in (0.7, -3.0, 5.0, -20.0, -30.0, -60.0, 20.0, 60.0):
+            x = jax.tree_util.tree_map(lambda v: v + shift, x0)
+            y = fn(x)
+            if not all(np.allclose(np.asarray(a), np.asarray(b), atol=1e-4, rtol=1e-5) for a, b in zip(jax.tree_util.tree_leaves(y), jax.tree_util.tree_leaves(x))):
+                return True
+        return False
     except BaseException:  # noqa
         return None
 
@@ -227,13 +232,17 @@ def _replay_chain(order):
     from rex.base import Chain, Denormalize, Exponential
 
     try:
-        mn, mx, x = {"a": jnp.float32(1.0)}, {"a": jnp.float32(3.0)}, {"a": jnp.float32(0.25)}
+        mn, mx = {"a": jnp.float32(1.0)}, {"a": jnp.float32(3.0)}
         d, e = Denormalize.init(mn, mx), Exponential.init()
         ch = Chain.init(d, e) if order == "denorm,exp" else Chain.init(e, d)
-        want = np.exp(0.25 * 1.0 + 2.0) if order == "denorm,exp" else np.exp(0.25) * 1.0 + 2.0
-        y = {"a": jnp.float32(2.5)}
-        want_inv = (np.log(2.5) - 2.0) / 1.0 if order == "denorm,exp" else np.log((2.5 - 2.0) / 1.0)
-        return not (np.allclose(float(ch.apply(x)["a"]), want, atol=1e-5) and np.allclose(float(ch.inv(y)["a"]), want_inv, atol=1e-5))
+        for xv, yv in ((0.25, 2.5), (-3.0, 2.0 + 1e-3), (1.5, 1e-12 if order == "denorm,exp" else 2.0 + 1e-12), (-22.0, 4e9 if order == "denorm,exp" else 5e7)):
+            x, y = {"a": jnp.float32(xv)}, {"a": jnp.float32(yv)}
+            want = np.exp(np.float64(xv) * 1.0 + 2.0) if order == "denorm,exp" else np.exp(np.float64(xv)) * 1.0 + 2.0
+            yv32 = np.float64(np.float32(yv))
+            want_inv = (np.log(yv32) - 2.0) / 1.0 if order == "denorm,exp" else np.log((yv32 - 2.0) / 1.0)
+            if not (np.allclose(float(ch.apply(x)["a"]), want, atol=1e-5, rtol=1e-4) and np.allclose(float(ch.inv(y)["a"]), want_inv, atol=1e-3, rtol=1e-4)):
+                return True
+        return False
     except BaseException:  # noqa
         return None
 
